@@ -971,6 +971,9 @@ func c17UnitShard(ctx *Ctx, res *Result, spec c17ShardSpec) {
 		add(c17RandomCondProgram(rng, res), "conditional", true)
 	}
 	flush()
+	// makefiles with directives (Model/RedundantDir.v)
+	c17DUnit(ctx, res, rng)
+	c17DExhaustive(ctx, res, spec)
 }
 
 func runC17Shard(ctx *Ctx) *Result {
@@ -1436,6 +1439,10 @@ func c17CrossCheck(ctx *Ctx, res *Result) {
 	if res.Broken != "" {
 		return
 	}
+	ndir := c17DCrossCheck(ctx, res, &sb)
+	if res.Broken != "" {
+		return
+	}
 	dir := filepath.Join(ctx.Work, "crosscheck")
 	os.MkdirAll(dir, 0o755)
 	file := filepath.Join(dir, "c17cases.v")
@@ -1461,6 +1468,7 @@ func c17CrossCheck(ctx *Ctx, res *Result) {
 	}
 	res.Count("crosschecked_by_vm_compute", len(progs))
 	res.Count("crosschecked_spelled_goals", nsp)
+	res.Count("crosschecked_dir_goals", ndir)
 }
 
 // ---------- entry points ----------
@@ -1486,13 +1494,17 @@ func runC17(ctx *Ctx) *Result {
 	if res.Broken != "" {
 		return res
 	}
+	c17DTreeLayer(ctx, res)
+	if res.Broken != "" {
+		return res
+	}
 	c17CrossCheck(ctx, res)
 	if res.Broken != "" {
 		return res
 	}
 	res.Exhaustive = false
 	res.Assumptions = []string{
-		"closed world: no variable is defined outside the files; no directives (.if/.for), no modifiers, references only as ${NAME}",
+		"closed world: no variable is defined outside the files; no modifiers, references only as ${NAME}; directives: .if [!]defined/empty(NAME), .if 0/1, .else, .endif, .undef, .for over literal items whose variable is not used, one level of .include",
 		"the shell command of '!=' is a deterministic function of its expanded text",
 	}
 	// coverage floors: the branches the property names must have been reached
@@ -1512,6 +1524,17 @@ func runC17(ctx *Ctx) *Result {
 		"crosschecked_spelled_goals": 75,
 		"programs_conditional": 20000, "cond_lines_conditional_assignments": 20000, "cond_programs_with_later_plain_write": 5000,
 		"pkgtree_frag_own": 20, "pkgtree_frag_other": 10, "pkgtree_frag_shared": 10,
+		// makefiles with directives (the counters come from the generator and the MODEL)
+		"dir_cases_pkg": 10000, "dir_cases_file": 10000, "dir_cases_binary": 200,
+		"dir_pkg_cases_with_verdicts": 2000, "dir_file_cases_with_verdicts": 1000, "dir_binary_cases_with_verdicts": 25,
+		"dir_file_guard_line_found": 3000,
+		"dir_pkg_with_verdicts_shape_two-fragments-shared-guard": 50, "dir_pkg_with_verdicts_shape_guard-defined-by-makefile": 50,
+		"dir_pkg_with_verdicts_shape_mk-file-undef": 200, "dir_pkg_with_verdicts_shape_mk-file": 200,
+		"dir_pkg_with_verdicts_shape_same-file-twice": 100, "dir_pkg_with_verdicts_shape_one-guarded-fragment": 100,
+		"dir_binary_shape_two-fragments-shared-guard": 10, "dir_binary_shape_mk-file-undef": 10, "dir_binary_shape_same-file-twice": 10,
+		"dir_binary_shape_guard-defined-by-makefile": 8, "dir_binary_shape_condition-in-included-file": 6,
+		"crosschecked_dir_goals": 60, "dir_exhaustive_programs": 80000,
+		"dir_pkg_shape_indirect-condition": 500, "dir_binary_shape_indirect-condition": 5,
 	}
 	for _, k := range sortedKeys(floors) {
 		n, _ := res.Distribution[k].(int)
@@ -1529,6 +1552,10 @@ func runC17(ctx *Ctx) *Result {
 
 func replayC17(ctx *Ctx, rep map[string]any) *Result {
 	res := &Result{Rule: "replay"}
+	if l, _ := rep["layer"].(string); l == "dir" {
+		c17DReplayRun(ctx, res, rep)
+		return res
+	}
 	if l, _ := rep["layer"].(string); l == "pkgtree" {
 		c17TreeReplayRun(ctx, res, rep)
 		return res
